@@ -257,6 +257,8 @@ func factsSes(f *facts) {
 	for _, n := range []string{"HandleRequest", "HandleUpgrade", "onWebSocket", "ServeHTTP", "Cleanup"} {
 		f.skeletonOf(eng, "engine", "server", n)
 	}
+	ut := loadPkg("utils")
+	f.skeletonOf(ut, "utils", "Yeast", "Yeast")
 	// constants of the timing model, in milliseconds
 	ms := func(name string, v int64, ok bool) { f.nat(name, v/1e6, ok && v%1e6 == 0) }
 	v, ok := tr.assignedConst(tr.fn("polling", "Construct"), ".closeTimeout")
